@@ -492,6 +492,45 @@ def h19_raw_identity_store(ctx, tk, rule, funcs):
                 ctx.holds(rule, f, "a ufunc's identity is converted to the result's dtype before it is stored", node=n.ast, engine="KB")
 
 
+def h20_chunk_loop_drops_tail(ctx, tk, rule, funcs):
+    """for i in range(n // k): ... x[i*k:(i+1)*k] ...   covers floor(n/k) whole chunks: the last n % k elements are
+    never visited unless the count is rounded up or the tail is handled after the loop"""
+    for f in funcs:
+        fa = ctx.fa(f)
+        for fn in [n for n in fa.cfg.nodes if n.kind == "for" and fa.cfg.is_reachable(n)]:
+            it = fn.ast.iter
+            if not (isinstance(it, ast.Call) and isinstance(it.func, ast.Name) and it.func.id == "range" and len(it.args) == 1):
+                continue
+            cnt = it.args[0]
+            tm = fa.term(cnt, fn)
+            fd = [a for a in alts(tm) if a.k == "bin" and a.a[0] == "//"]
+            if not fd or len(fd) != len(alts(tm)):
+                continue
+            num, k = fd[0].a[1], fd[0].a[2]
+            # rounded up:  (n + k - 1) // k   or  -(-n // k)
+            if any(x.k == "bin" and x.a[0] in ("+", "-") and any(y == k for y in walk(x)) for x in walk(num)) or num.k == "un":
+                continue
+            if not isinstance(fn.ast.target, ast.Name):
+                continue
+            iv = fn.ast.target.id
+            # the body slices with i*k : (i+1)*k
+            sliced = False
+            for x in ast.walk(ast.Module(body=fn.ast.body, type_ignores=[])):
+                if isinstance(x, ast.Slice) and x.lower is not None and x.upper is not None and any(isinstance(y, ast.Name) and y.id == iv for y in ast.walk(x.lower)) \
+                        and any(isinstance(y, ast.Name) and y.id == iv for y in ast.walk(x.upper)):
+                    sliced = True
+            if not sliced:
+                continue
+            # tail handling anywhere else in the function: a `%` of the same operands, or an open slice starting at a multiple
+            rest = [x for x in ast.walk(f.node) if isinstance(x, ast.BinOp) and isinstance(x.op, ast.Mod)]
+            open_tail = [x for x in ast.walk(f.node) if isinstance(x, ast.Slice) and x.upper is None and x.lower is not None and not any(
+                isinstance(y, ast.Name) and y.id == iv for y in ast.walk(x.lower)) and any(isinstance(y, (ast.Mult, ast.FloorDiv)) for y in ast.walk(x.lower))]
+            ok = bool(rest or open_tail)
+            ctx.decide(rule, f, "a loop over fixed-size chunks also covers the incomplete last chunk", True if ok else False,
+                       "`for %s in %s` visits floor(n / k) chunks `[%s*k : (%s+1)*k]`; the last n %% k elements are never processed" % (iv, ast.unparse(it), iv, iv),
+                       node=fn.ast, engine="KB")
+
+
 def generic(ctx, tk, rule, funcs, skip=()):
     """all deviance-form hazard rules over a property's function scope"""
     fs = [f for f in funcs if f.qual not in skip]
@@ -513,5 +552,6 @@ def generic(ctx, tk, rule, funcs, skip=()):
     h16_initial_in_extremum(ctx, tk, rule + "/H16", fs)
     h17_tolerance_as_equality(ctx, tk, rule + "/H17", fs)
     h18_cross_operand_store(ctx, tk, rule + "/H18", fs)
+    h20_chunk_loop_drops_tail(ctx, tk, rule + "/H20", fs)
     # H19 (raw ufunc identity stored) depends on which ufunc the caller chose: it is applied by C05 only, where the
     # property quantifies over "any ufunc that has an identity"
